@@ -212,8 +212,8 @@ theorem popUnderscores_take : ∀ (f : Nat) (scope link : List Seg),
 
 /-- **compiled_link_absolute**: whenever `compileLink` rewrites a link written in a scope that starts at `root` (every
     scope does: `IDA` of a map begins with the root field), the stored path starts with `root` — it is absolute. -/
-theorem compiled_link_absolute (scope link r : List Seg) (hroot : scope.head? = some rootSeg)
-    (h : compileLink scope link = some r) : r.head? = some rootSeg := by
+theorem compiled_link_absolute (kc : Bool) (scope link r : List Seg) (hroot : scope.head? = some rootSeg)
+    (h : compileLink kc scope link = some r) : r.head? = some rootSeg := by
   unfold compileLink at h
   cases scope with
   | nil => simp at hroot
@@ -237,7 +237,7 @@ theorem compiled_link_absolute (scope link r : List Seg) (hroot : scope.head? = 
             simp only at hj
             simp only [hp, Option.some.injEq] at h
             subst h
-            have hfr : formatSeg rootSeg = rootSeg := by decide
+            have hfr : formatSeg kc rootSeg = rootSeg := by cases kc <;> decide
             by_cases he : sc.isEmpty = true
             · simp [he, hfr]
             · simp only [he, Bool.false_eq_true, if_false]
@@ -313,7 +313,7 @@ def sg (s : String) : Seg := { s := s, unq := true }
     (its last element is compared with the name of the board reached so far), so it survives although no such board
     exists (replayed on the CLI: the href stays `root.layers.x.x`). -/
 theorem C35_cx_odd_tail :
-    compileLink [sg "root", sg "a"] [sg "layers", sg "x", sg "x"] = some [sg "root", sg "layers", sg "x", sg "x"] ∧
+    compileLink false [sg "root", sg "a"] [sg "layers", sg "x", sg "x"] = some [sg "root", sg "layers", sg "x", sg "x"] ∧
     validateLink Cfg.legacy b0 ["root"] false [sg "root", sg "layers", sg "x", sg "x"] = true ∧
     validateLink Cfg.fixed b0 ["root"] false [sg "root", sg "layers", sg "x", sg "x"] = false ∧
     existsStrict b0 [sg "root", sg "layers", sg "x", sg "x"] = false := by
@@ -351,7 +351,8 @@ example :
 
 /-- the variant of the code in the tree under test (tie R) -/
 def cfgNow : Cfg :=
-  ⟨Gen.LinksCfg.danglingFalse, Gen.LinksCfg.singleRoot, Gen.LinksCfg.idaPerLevel, Gen.LinksCfg.relinkByValue⟩
+  ⟨Gen.LinksCfg.danglingFalse, Gen.LinksCfg.singleRoot, Gen.LinksCfg.idaPerLevel, Gen.LinksCfg.relinkByValue,
+   Gen.LinksCfg.keepKeywordCase⟩
 
 /-- **C35_links_exist_now**: for the tree under test — the flags are regenerated from its source — either `hasBoard`
     is the strict reading and every surviving link names an existing board (full strength), or the legacy `hasBoard`
